@@ -425,7 +425,7 @@ struct Value {
             fprintf(stderr, "cannot base58-decode non-string value\n");
             return;
         }
-        if (!DecodeBase58(str, data, 200)) {
+        if (!DecodeBase58(str, data, str.size())) { // (the decoded bytes are never more than the characters)
             fprintf(stderr, "decode failed\n");
         }
         type = T_DATA;
@@ -440,7 +440,8 @@ struct Value {
             fprintf(stderr, "cannot base58-decode non-string value\n");
             return;
         }
-        if (!DecodeBase58Check(str, data, 200)) {
+        // whatever base58chk-encode produces is decoded again: the payload is never longer than the string
+        if (!DecodeBase58Check(str, data, str.size())) {
             fprintf(stderr, "decode failed\n");
         }
         type = T_DATA;
